@@ -92,6 +92,36 @@ def _cube_root_of_unity(n):
         g += 1
 
 
+def barrett_subtractions(a, m, wbits):
+    """Simulate the quotient estimate of Barrett reduction (HAC 14.42, as in bn_mod_barrt) and return
+    the number of final subtractions it needs; used only to SELECT inputs reaching the rare second one."""
+    B = 1 << wbits
+    k = max(1, (m.bit_length() + wbits - 1) // wbits)
+    if a < m or (a.bit_length() + wbits - 1) // wbits > 2 * k:
+        return 0
+    mu = B ** (2 * k) // m
+    q3 = ((a // B ** (k - 1)) * mu) // B ** (k + 1)
+    t = (a % B ** (k + 1)) - ((q3 * m) % B ** (k + 1))
+    if t < 0:
+        t += B ** (k + 1)
+    return t // m
+
+
+def barrett_reach(wbits, k, rng, want, tries=4000):
+    """(a, m) with m of k digits (small top digit) and a just above a large multiple of m"""
+    B = 1 << wbits
+    out = []
+    for _ in range(tries):
+        m = B ** (k - 1) * rng.randint(1, 3) + rng.getrandbits(rng.randint(1, wbits * (k - 1)))
+        j = (B ** (2 * k) - 1) // m - rng.getrandbits(rng.randint(1, 16))
+        a = j * m + rng.getrandbits(rng.randint(1, 8))
+        if 0 <= a < B ** (2 * k) and m > 1 and barrett_subtractions(a, m, wbits) >= 2:
+            out.append((a, m))
+            if len(out) >= want:
+                break
+    return out
+
+
 def extreme_moduli(wbits, maxdigs, rng):
     """moduli with extreme digits: all-ones, 2^k, 2^k +- 1, top digit 1 / 2^(w-1) / all ones, dense random"""
     B = 1 << wbits
@@ -187,8 +217,9 @@ class Gen:
                     if s < 0 and (a == 0 or rng.random() < (0.0 if a <= 2 * m else 0.5)):
                         continue
                     self.add("bn_mod_basic", al, s * a, m)
-                    self.add("bn_mod_barrt", al, s * a, m)
-                    self.add("bn_mod_pmers", al, s * a, m)
+                    if s > 0 or rng.random() < 0.25:
+                        self.add("bn_mod_barrt", al, s * a, m)
+                        self.add("bn_mod_pmers", al, s * a, m)
                     if m % 2 == 1:
                         self.add("bn_mod_monty_conv", al, s * a, m)
                 if m % 2 == 1 and a < m * R:
@@ -200,6 +231,14 @@ class Gen:
                 self.add("bn_mod_monty_comba", 0, 1, m)
                 self.add("bn_mod_monty_conv", 0, 1, m)
                 self.add("bn_mod_monty_back", 0, 1, m)
+        # operands for which Barrett's quotient estimate is two short (second final subtraction)
+        reach = 0
+        for k in sorted({2, 3, 4, self.digs // 2, self.digs}):
+            for (a, m) in barrett_reach(self.w, k, rng, self.n(8, 40)):
+                reach += 1
+                self.add("bn_mod_barrt", rng.choice([0, 1]), a, m)
+                self.add("bn_mod_pmers", 0, a, m)
+        self.stats["barrett_two_subtractions"] = reach
         for op in ("bn_mod_basic", "bn_mod_barrt", "bn_mod_pmers", "bn_mod_monty_comba", "bn_mod_monty_basic",
                    "bn_mod_monty_conv", "bn_mod_monty_back"):
             self.add(op, 0, 5, 0)          # zero modulus
@@ -210,7 +249,7 @@ class Gen:
             for m in ms:
                 for a in (range(0, 1024) if not self.quick else rng.sample(range(0, 1024), 40)):
                     for s in (1, -1):
-                        if a == 0 and s < 0:
+                        if s < 0 and (a == 0 or rng.random() < 0.97):
                             continue
                         self.add("bn_mod_barrt", 0, s * a, m)
                         self.add("bn_mod_pmers", 0, s * a, m)
@@ -255,7 +294,7 @@ class Gen:
                         rng.getrandbits(nb + 9) + 1, 0, m, 2 * m, 6, 10]
                 for a in cand:
                     self.add("bn_mod_inv", rng.choice([0, 0, 1]), a, m)
-                    if a > 0 and rng.random() < 0.4:
+                    if a > 0 and rng.random() < 0.08:
                         self.add("bn_mod_inv", 0, -a, m)
                 for n in (1, 2, 3, 7):
                     xs = [rng.randrange(1, m) for _ in range(n)]
@@ -283,7 +322,8 @@ class Gen:
                         self.add("bn_mxp_monty", 0, a, b, m)
                         self.add("bn_mxp_basic", 0, a, b, m)
                 for a in range(-m, 2 * m + 1):
-                    self.add("bn_mod_inv", 0, a, m)
+                    if a >= 0 or a % 7 == 0:
+                        self.add("bn_mod_inv", 0, a, m)
 
     # ------------------------------------------------------------ gcd family
     def gcd_pairs(self):
@@ -389,7 +429,9 @@ class Gen:
         if not self.tiny:
             odd += [p for p in NIST_PRIMES if p.bit_length() <= self.maxbits] + \
                    [c for c in CARMICHAEL + STRONG_PSP if c % 2 == 1]
-        if self.quick and len(odd) > 50:
+        if self.tiny:
+            odd = sorted(set(odd[:4]) | set(rng.sample(odd, 8)))
+        elif self.quick and len(odd) > 50:
             odd = sorted(set(odd[:10]) | set(rng.sample(odd, 40)))
         for b in odd:
             nb = b.bit_length()
@@ -413,10 +455,10 @@ class Gen:
         if self.tiny:
             # one-digit and multi-digit second arguments (the approximation loop); kept small: see the
             # known finding on arch_tzcnt for 8/16-bit digits, which makes this family uninformative there
-            for b in range(1, 256, 2 if not self.quick else 16):
-                for a in rng.sample(range(0, b + 2), min(b + 2, 6)):
+            for b in range(1, 256, 8 if not self.quick else 32):
+                for a in rng.sample(range(0, b + 2), min(b + 2, 4)):
                     self.add("bn_smb_jac", 0, a, b)
-            for _ in range(self.n(150, 2000)):
+            for _ in range(self.n(40, 400)):
                 d = rng.choice([2, 2, 3, 4, 8])
                 b = rng.getrandbits(8 * d) | 1
                 a = rng.getrandbits(8 * rng.randint(1, d + 1))
@@ -468,7 +510,7 @@ class Gen:
         if self.tiny:
             for a in range(0, 1 << (13 if self.quick else 16)):
                 self.add("bn_is_prime", 0, a)
-                if a % 2 == 1 and a > 2 and a < (256 if self.quick else 2048):
+                if a % 2 == 1 and a > 2 and a < (64 if self.quick else 512):
                     self.add("bn_is_prime_solov", 0, a)
         # generators
         if self.tiny:
